@@ -39,6 +39,7 @@ func TestSim(t *testing.T) {
 		"C35":   {Run: runState("C35"), Opt: opt},
 		"C36":   {Run: runState("C36"), Opt: opt},
 		"C25h2": {Run: runC25h2, Opt: opt},
+		"C32":   {Run: runC32},
 		"C37":   {Run: runFlood, Opt: simrt.Options{MaxSteps: 3000000}},
 	})
 }
